@@ -1,0 +1,161 @@
+//! Verification hook (cargo feature `verif-hooks`, add-only): a SCRIPTED SERVICE.
+//!
+//! The real [`Service`] with its real event loop ([`Service::start`]) running on the current tokio
+//! runtime, but without a `Handler`: the handler's ends of the two channels are held by the caller,
+//! who therefore plays the handler — it injects `HandlerOut` events (`Established`, `Request`,
+//! `Response`, `RequestFailed`, `UnverifiableEnr`, ...) and reads the `HandlerIn` messages the
+//! service emits. The public side is driven through a real [`Discv5`] attached to the service's
+//! command channel, exactly as `Discv5::start` attaches it.
+//!
+//! Construction mirrors `Service::spawn` line by line except for `Handler::spawn` (no socket is
+//! bound) and the executor (`tokio::spawn` on the current runtime).
+use super::*;
+use crate::Discv5;
+
+/// The scripted service: the caller holds the handler's channel ends.
+pub struct ScriptedService {
+    /// The public API, attached to the service's command channel.
+    pub discv5: Discv5,
+    /// The routing table shared by `Discv5` and the service.
+    pub kbuckets: Arc<RwLock<KBucketsTable<NodeId, Enr>>>,
+    /// The local ENR shared by `Discv5` and the service.
+    pub local_enr: Arc<RwLock<Enr>>,
+    /// The key of the local ENR.
+    pub enr_key: Arc<RwLock<CombinedKey>>,
+    /// Handler -> service (what the handler would report).
+    pub to_service: mpsc::Sender<HandlerOut>,
+    /// Service -> handler (what the service asks the handler to send).
+    pub from_service: mpsc::UnboundedReceiver<HandlerIn>,
+    /// Fires when the service shuts its handler down.
+    pub handler_exit: oneshot::Receiver<()>,
+    /// The IP mode the service runs in (derived from the listen configuration as in `spawn`).
+    pub ip_mode: IpMode,
+    /// The task running `Service::start`.
+    pub task: tokio::task::JoinHandle<()>,
+}
+
+/// Builds the service as `Discv5::new` + `Discv5::start` / `Service::spawn` do, minus the handler.
+/// Must be called inside a tokio runtime. `Discv5::new` resets the global `PERMIT_BAN_LIST` to
+/// `config.permit_ban_list`.
+pub fn scripted_service(
+    local_enr: Enr,
+    enr_key: CombinedKey,
+    config: Config,
+) -> Result<ScriptedService, &'static str> {
+    let mut discv5 = Discv5::new(local_enr, enr_key, config)?;
+    let (kbuckets, local_enr, enr_key) = discv5.verif_handles();
+    let config = discv5.verif_config().clone();
+
+    // -- Service::spawn --
+    let ip_votes = if config.enr_update {
+        Some(IpVote::new(
+            config.enr_peer_update_min,
+            config.vote_duration,
+        ))
+    } else {
+        None
+    };
+    let ip_mode = IpMode::new_from_listen_config(&config.listen_config);
+
+    // instead of Handler::spawn: the channels the handler would hold
+    let (handler_exit, handler_exit_recv) = oneshot::channel();
+    let (handler_send, from_service) = mpsc::unbounded_channel();
+    let (to_service, handler_recv) = mpsc::channel(1000);
+
+    let (discv5_send, discv5_recv) = mpsc::channel(30);
+    let (exit_send, exit) = oneshot::channel();
+    let connectivity_state = ConnectivityState::new(config.auto_nat_listen_duration);
+
+    let mut service = Service {
+        local_enr: local_enr.clone(),
+        enr_key: enr_key.clone(),
+        kbuckets: kbuckets.clone(),
+        queries: QueryPool::new(config.query_timeout),
+        active_requests: Default::default(),
+        active_nodes_responses: HashMap::new(),
+        ip_votes,
+        handler_send,
+        handler_recv,
+        handler_exit: Some(handler_exit),
+        peers_to_ping: HashSetDelay::new(config.ping_interval),
+        discv5_recv,
+        event_stream: None,
+        exit,
+        config: config.clone(),
+        ip_mode,
+        connectivity_state,
+    };
+    let task = tokio::spawn(async move {
+        service.start().await;
+    });
+    discv5.verif_attach(discv5_send, exit_send);
+
+    Ok(ScriptedService {
+        discv5,
+        kbuckets,
+        local_enr,
+        enr_key,
+        to_service,
+        from_service,
+        handler_exit: handler_exit_recv,
+        ip_mode,
+        task,
+    })
+}
+
+impl ScriptedService {
+    /// Everything the service has sent to the handler since the last call.
+    pub fn drain(&mut self) -> Vec<HandlerIn> {
+        let mut out = vec![];
+        while let Ok(m) = self.from_service.try_recv() {
+            out.push(m);
+        }
+        out
+    }
+
+    /// Queues an event as the handler would (`service_send.send(..)`); false if the queue is full
+    /// or the service is gone.
+    pub fn inject(&self, event: HandlerOut) -> bool {
+        self.to_service.try_send(event).is_ok()
+    }
+}
+
+/// `MAX_PACKET_SIZE`, `MAX_NODES_RESPONSES`, `DISTANCES_TO_REQUEST_PER_PEER` as compiled.
+pub fn constants() -> (usize, usize, usize) {
+    (
+        MAX_PACKET_SIZE,
+        MAX_NODES_RESPONSES,
+        DISTANCES_TO_REQUEST_PER_PEER,
+    )
+}
+
+/// The distances a lookup for `target` requests from `peer` (`QueryInfo::rpc_request`).
+pub fn lookup_distances(target: NodeId, peer: NodeId, size: usize) -> Option<Vec<u64>> {
+    // `findnode_log2distance` is private to `query_info`; `rpc_request` is its only caller.
+    let (callback, _rx) = oneshot::channel();
+    let info = QueryInfo {
+        query_type: QueryType::FindNode(target),
+        untrusted_enrs: Default::default(),
+        callback,
+        distances_to_request: size,
+    };
+    match info.rpc_request(peer) {
+        RequestBody::FindNode { distances } => Some(distances),
+        _ => None,
+    }
+}
+
+/// Snapshot of the process-global ban list: (banned ips, banned node ids).
+pub fn ban_snapshot() -> (Vec<IpAddr>, Vec<NodeId>) {
+    let l = PERMIT_BAN_LIST.read();
+    let mut ips: Vec<IpAddr> = l.ban_ips.keys().cloned().collect();
+    ips.sort();
+    let mut ids: Vec<NodeId> = l.ban_nodes.keys().cloned().collect();
+    ids.sort_by_key(|n| n.raw());
+    (ips, ids)
+}
+
+/// Empties the process-global permit/ban list.
+pub fn ban_clear() {
+    *PERMIT_BAN_LIST.write() = crate::PermitBanList::default();
+}
